@@ -34,12 +34,16 @@ SHIPPED = [  # (glue, X, T) of the shipped curves (unit / pi square: 4 equal sid
     (1, [F(0), F(1), F(2), F(3), F(4)], [F(0), F(1, 4), F(1, 2), F(1)]),
     (0, [F(0), F(1)], [F(0), F(1, 8), F(1)]),
     (1, [F(i) for i in range(9)], [F(0), F(1, 2), F(3, 2)]),
+    (1, [F(0), F(1), F(2), F(3), F(4)], [F(0), F(1), F(17, 16)]),
+    (1, [F(0), F(1), F(2), F(3), F(4)], [F(0), F(1, 16), F(1)]),
 ]
 
 
 # minimised past failures, replayed first (found by the Lean-side search for a negation witness of
 # `grading_no_assert` on the unrepaired model and confirmed on the real code)
 CORPUS = [
+    # finding F12: slabs of lengths 1/64 and 63/64, sigma = 1 - the sweep never reaches the window (runs away)
+    (1, [F(0), F(1), F(2), F(3), F(4)], [F(0), F(1, 64), F(1)], [], 1),
     (0, [F(0), F(1), F(3)], [F(0), F(1)], [('rs', 0), ('rs', 2), ('rt', 5), ('rt', 6)], 2),
     (0, [F(0), F(1), F(2)], [F(0), F(1)], [('rs', 0), ('rs', 2), ('rs', 4), ('rs', 6), ('rt', 9), ('rt', 10), ('rt', 16),
                                            ('rt', 24), ('rt', 34), ('rt', 46)], 2),
@@ -54,6 +58,9 @@ def translate(res):
 
 class Timeout(Exception):
     pass
+
+
+BUDGET = 20000
 
 
 def _alarm(*a):
@@ -150,13 +157,28 @@ def search(res, tier, boost=False):
             hist = dict(glue=glue, X=[str(x) for x in X], T=[str(t) for t in T], ops=[op_json(o) for o in ops], sigma=sigma)
             ops.append(('grade', sigma, 4))
             signal.alarm(60)
+            # bisection budget: a grading call that performs more than BUDGET bisections on these small meshes (the
+            # window is reached after a few hundred at most) is running away - stop it before it eats the memory
+            real_refine_axis = pm.mesh.refine_axis
+            spent = [0]
+
+            def budgeted(elem, ax):
+                spent[0] += 1
+                if spent[0] > BUDGET:
+                    raise Timeout()
+                return real_refine_axis(elem, ax)
+            pm.mesh.refine_axis = budgeted
             try:
                 out = pm.apply(('grade', sigma, 4))
             except Timeout:
-                res.violation('C19:no-termination', dict(history=hist, fuse_s=60))
+                unequal_t = len(set(F(T[i + 1]) - F(T[i]) for i in range(len(T) - 1))) > 1
+                res.violation('C19:no-termination:unequal-time-slabs' if unequal_t and not ops[:-1] else 'C19:no-termination',
+                              dict(history=hist, fuse_s=60, bisection_budget=BUDGET, bisections=spent[0],
+                                   leaves_when_stopped=len(pm.mesh.leaf_elements)))
                 return False
             finally:
                 signal.alarm(0)
+                del pm.mesh.refine_axis
             res.count(('grade', h, res.seed, sigma, len(ops)), refmesh.leafset(pm.mesh) != before)
             if out.startswith('err'):
                 res.violation('C19:grading-raises', dict(history=hist))
